@@ -36,7 +36,7 @@ func verifyFunc(p *Program, db *SpecDB, key string, useGaps bool) (res *FuncResu
 		res.Err = "no contract for " + key
 		return
 	}
-	loopMods := map[string]map[string]bool{}
+	loopMods := map[string]map[string]*modInfo{}
 	for iter := 0; iter < 12; iter++ {
 		c := newCtx(p, db, key, loopMods)
 		err := c.runTop(fn, spec, useGaps)
@@ -259,6 +259,14 @@ func (c *Ctx) ghostAssign(env *Env, st *State, cl *Clause) {
 		rhs = env.typed(rhs, t)
 		c.hset(st, name, fmt.Sprintf("(store %s %s %s)", c.hget(st, name), base.ref, rhs.T))
 	case *EIndex:
+		if id, ok := l.X.(*EIdent); ok {
+			if g := c.DB.Globals[id.Name]; g != nil {
+				hn, t := env.globalHeap(g)
+				rhs = env.typed(rhs, t.(*types.Map).Elem())
+				c.hset(st, hn, fmt.Sprintf("(store %s %s %s)", c.hget(st, hn), refTerm(env.eval(l.I)), rhs.T))
+				return
+			}
+		}
 		sel, ok := l.X.(*ESel)
 		if !ok {
 			sfail("ghost assignment target must be x.g or x.g[k]")
@@ -371,7 +379,7 @@ func verifyLemma(p *Program, db *SpecDB, name string) (res *FuncResult) {
 		res.Err = "no such lemma " + name
 		return
 	}
-	c := newCtx(p, db, "lemma."+name, map[string]map[string]bool{})
+	c := newCtx(p, db, "lemma."+name, map[string]map[string]*modInfo{})
 	defer func() {
 		res.Obls, res.Script = c.obls, c.script
 		for n := range c.notes {
